@@ -1107,19 +1107,6 @@ Theorem trailing_layout_same_parse (p r g : list N) (k : nat) :
   parse_agree (PARSE (LEX (p ++ g))) (PARSE (LEX p)).
 Proof. intros R Hr G F. apply equal_shapes_parse_agree. apply (LexRest.trailing_layout_is_ignored _ _ _ p r g k); assumption. Qed.
 End MAIN.
-Print Assumptions parse_program_commutes_with_erasure.
-Print Assumptions parser_reads_shapes_only_gen.
-Print Assumptions parser_reads_shapes_only.
-Print Assumptions equal_shapes_parse_agree.
-Print Assumptions equal_shapes_accepted_together.
-Print Assumptions equal_shapes_equal_erasures.
-Print Assumptions equal_shapes_same_error.
-Print Assumptions parse_stmt_commutes_with_erasure.
-Print Assumptions parse_tops_commutes_with_erasure.
-Print Assumptions leading_layout_same_parse.
-Print Assumptions layout_between_tokens_same_parse.
-Print Assumptions trailing_layout_same_parse.
-Print Assumptions parse_format_erase_real.
 
 (* ================================================================================================================= *)
 (* 8. Composition with the emitter half (sibling file ShapeEmit.v), taken as a hypothesis                              *)
@@ -1182,8 +1169,6 @@ Proof.
   intros R G F Hr. apply equal_shapes_equal_output. apply (LexRest.layout_between_tokens_any_gap _ _ _ p r g k); assumption.
 Qed.
 End COMPOSE.
-Print Assumptions equal_shapes_equal_output.
-Print Assumptions layout_between_tokens_same_output.
 
 (* ================================================================================================================= *)
 (* 9. Examples: the hypotheses are satisfiable on a non-trivial input, and the erasure is necessary                    *)
